@@ -64,7 +64,7 @@ cat > $B/m4ri/m4ri_config.h.new <<EOF
 #endif
 EOF
 cmp -s $B/m4ri/m4ri_config.h.new $B/m4ri/m4ri_config.h || mv $B/m4ri/m4ri_config.h.new $B/m4ri/m4ri_config.h
-INC="-include $B/m4ri/m4ri_config.h -I$B -I$SRC -I/usr/include/libpng16"
+INC="-include $B/m4ri/m4ri_config.h -I$B -I$B/m4ri -I$SRC -I/usr/include/libpng16"
 # config.h is a generated (untracked) autoconf header next to the sources; fall back to the pinned copy
 [ -f $SRC/m4ri/config.h ] || INC="$INC -I$V/configs"
 pids=()
